@@ -65,6 +65,9 @@ class RecurseNode(ConfigList):
         if not all(isinstance(v, str) for v in value):
             raise ValueError('Not all values evaluate to strings!')
 
+        # a name can also be unsafe because of what it was computed from (e.g. "!rec [!xref name]" with "name: !unsafe x.yaml")
+        safe_flags = [safe and str(path + [idx]) not in ctx._unsafe_evaluated for idx, safe in enumerate(safe_flags)]
+
         missing = []
         builder = Builder()
         for safe, filename in zip(safe_flags, value):
